@@ -402,16 +402,27 @@ def check_count_both(ctx) -> None:
 def check_warmup(ctx) -> None:
     prog = ctx.prog
     fn = prog.func("cobra.sampling.hr_sampler", "HRSampler.generate_fva_warmup")
-    sets = [n for n in walk_local(fn.node) if isinstance(n, ast.Call) and isinstance(n.func, ast.Attribute) and n.func.attr == "set_linear_coefficients" and n.args and isinstance(n.args[0], ast.Dict)]
-    vals = [[norm(v) for v in s.args[0].values] for s in sets]
+    # the step may live in the function itself or in a method it was factored into
+    scope = [fn]
+    for n in walk_local(fn.node):
+        if isinstance(n, ast.Call) and isinstance(n.func, ast.Attribute) and isinstance(n.func.value, ast.Name) and n.func.value.id == (fn.self_name or "self") and fn.cls is not None:
+            scope += [m for m in prog.find_method(fn.cls, n.func.attr) if m not in scope]
+    sets = [(f, n) for f in scope for n in walk_local(f.node) if isinstance(n, ast.Call) and isinstance(n.func, ast.Attribute) and n.func.attr == "set_linear_coefficients" and n.args and isinstance(n.args[0], ast.Dict)]
+    vals = [[norm(v) for v in s.args[0].values] for _, s in sets]
+    if not sets:
+        ctx.note("C16.warmup: no objective-coefficient dictionaries found in generate_fva_warmup or the methods it calls; the step is not read (spelling not recognised)")
+        return
     if ["1", "-1"] in vals and ["0", "0"] in vals:
-        ctx.ok("C16.warmup", fn, sets[0], "each warm-up step sets {fwd: 1, rev: -1} and resets the pair to zero")
+        ctx.ok("C16.warmup", sets[0][0], sets[0][1], "each warm-up step sets {fwd: 1, rev: -1} and resets the pair to zero")
     else:
-        ctx.bad("C16.warmup", fn, sets[0] if sets else fn.node, f"warm-up steps do not set {{fwd: 1, rev: -1}} and reset it ({vals}): later warm-up points optimise a sum of reactions")
-    keys = [[norm(k) for k in s.args[0].keys] for s in sets]
+        ctx.bad("C16.warmup", sets[0][0], sets[0][1], f"warm-up steps do not set {{fwd: 1, rev: -1}} and reset it ({vals}): later warm-up points optimise a sum of reactions")
+    keys = [[norm(k) for k in s.args[0].keys] for _, s in sets]
+    sets = [s for _, s in sets]
     if keys and all(k == ["variables[0]", "variables[1]"] for k in keys):
-        va = [n for n in walk_local(fn.node) if isinstance(n, ast.Assign) and norm(n.targets[0]) == "variables"]
-        if va and "self.fwd_idx[i]" in norm(va[0].value) and "self.rev_idx[i]" in norm(va[0].value) and norm(va[0].value).index("fwd_idx") < norm(va[0].value).index("rev_idx"):
+        va = [n for f in scope for n in walk_local(f.node) if isinstance(n, ast.Assign) and norm(n.targets[0]) == "variables"]
+        if not va:
+            ctx.note("C16.warmup: the stepped pair is built in a way that is not read (spelling not recognised)")
+        elif "self.fwd_idx[i]" in norm(va[0].value) and "self.rev_idx[i]" in norm(va[0].value) and norm(va[0].value).index("fwd_idx") < norm(va[0].value).index("rev_idx"):
             ctx.ok("C16.warmup", fn, va[0], "the stepped pair is (forward, reverse) variable of reaction i through the index maps")
         else:
             ctx.bad("C16.warmup", fn, va[0] if va else fn.node, "the stepped variable pair is not (forward, reverse) of reaction i")
